@@ -25,6 +25,7 @@ from . import common
 PROP = 'C16'
 LEVEL = 'exploration'
 WANT_LINES = True
+WANT_RAISES = True
 RULE = ('cases = API-call events: (a) a seeded random history over an '
         'operation pool (construct with defaults, encode, decode valid, '
         'decode invalid, encode refused, toggle), every event compared with '
@@ -498,6 +499,11 @@ def gates(m, tier):
             out.append('op kind %s never in the history' % k)
     if not m.counters.get('mutate_and_observe_probes'):
         out.append('no mutate-and-observe probe ran')
+    born = set(x.rsplit(':', 2)[0] for x in m.sets.get('raise_sites', ())
+               if x.startswith('decode.py:'))
+    if len(born) < 5:
+        out.append('failed decodes were born in only %d decode.py functions '
+                   '(%s); need 5' % (len(born), sorted(born)))
     if m.counters.get('state_snapshots', 0) < 5:
         out.append('fewer than 5 state snapshots compared')
     if len(m.sets.get('interleaving_signatures', ())) < 2:
